@@ -181,3 +181,29 @@ Proof.
   eapply (closed_table_deterministic_proof tbl Hc (set_rng tbl p0 t)); [apply wf_set_rng; exact Hwf | exact Hq].
 Qed.
 
+
+(* ---------------------------------------------------------------- *)
+(* from "no open class" (what vm_compute shows on the generated table) to closedness *)
+(* ---------------------------------------------------------------- *)
+Lemma filter_negb_nil_forallb : forall {A} (f : A -> bool) l, filter (fun x => negb (f x)) l = [] -> forallb f l = true.
+Proof.
+  induction l as [|a l IH]; simpl; intros H; [reflexivity|].
+  destruct (f a); simpl in *; [apply IH; exact H | discriminate].
+Qed.
+
+Lemma open_nil_closed : forall tbl, open_classes tbl = [] -> forallb (closed tbl) tbl = true.
+Proof.
+  unfold open_classes. intros tbl H. apply filter_negb_nil_forallb.
+  destruct (filter (fun d => negb (closed tbl d)) tbl); [reflexivity|discriminate].
+Qed.
+
+Corollary no_foreign_source_proof : forall tbl,
+    forallb (closed tbl) tbl = true ->
+    forall t, wf tbl t = true ->
+    forall s q, In q (draws tbl (set_rng tbl (Inj s) t)) ->
+                (forall g, q <> Glob g) /\ (forall k, q <> Ctor k) /\ (forall k, q <> Wrk k) /\ (forall s', q = Inj s' -> s' = s).
+Proof.
+  intros tbl Hc t Hwf s q Hq.
+  rewrite (closed_table_deterministic_proof tbl Hc t Hwf (Inj s) q Hq).
+  repeat split; try (intros; discriminate). intros s' E. injection E. auto.
+Qed.
